@@ -512,17 +512,23 @@ Definition tc_target (o : tc_op) : option (tc_cat * string * string) :=
     explicitly masked out: port, keepAlive, keepAliveTimeout, https/http3/certificates,
     clientMaxBodySize, globalFilter) and the hot-updatable part it masks out (rules, server-level
     ipFilter, xForwardedFor, cacheSize, tracing, maxConnections). *)
-Record rt_listen := { rl_port : Z; rl_keepalive : bool; rl_katimeout : string; rl_maxbody : Z; rl_globalfilter : string }.
+Record rt_listen := { rl_port : Z; rl_keepalive : bool; rl_katimeout : string; rl_maxbody : Z; rl_globalfilter : string;
+                      rl_https : bool }.   (* certificates: the harness uses one fixed key pair *)
 Record rt_hot := { rh_rules : string; rh_ipfilter : list string; rh_xff : bool; rh_cache : Z; rh_maxconn : Z }.
 Record rt_spec := { rs_listen : rt_listen; rs_hot : rt_hot }.
 
 Definition rt_listen_eqb (a b : rt_listen) : bool :=
   (rl_port a =? rl_port b) && Bool.eqb (rl_keepalive a) (rl_keepalive b) &&
   String.eqb (rl_katimeout a) (rl_katimeout b) && (rl_maxbody a =? rl_maxbody b) &&
-  String.eqb (rl_globalfilter a) (rl_globalfilter b).
+  String.eqb (rl_globalfilter a) (rl_globalfilter b) && Bool.eqb (rl_https a) (rl_https b).
 
 Definition need_restart (old new : rt_spec) : bool := negb (rt_listen_eqb (rs_listen old) (rs_listen new)).
 
 (** runtime.reload on a running server: (restarts of the listener, the keep-alive connections survive) *)
 Definition rt_reload (old new : rt_spec) : Z * bool :=
   if need_restart old new then (1, false) else (0, true).
+
+(** runtime.reload ALWAYS rebuilds the mux from the new spec (mux.reload is unconditional): after
+    the update is applied the runtime routes with the generation built from [new], whatever [old]
+    was - i.e. like a runtime that only ever had [new]. *)
+Definition rt_generation_after (old new : rt_spec) : rt_spec := new.
